@@ -37,7 +37,9 @@ TStep ==
          b == Broken(Ev, R)
      IN /\ (b # "" => PrintT(<<"DEV", t, l, b>>))
         /\ last' = R.out
-  /\ cache' = Ev.cache
+  \* go on from the observed cache - unless it holds something that is no value at all (then from the demanded one)
+  /\ cache' = IF \A m \in DOMAIN shape : \A a \in Params(m) : InDatainfo(shape[m][a].dt, Ev.cache[m][a])
+              THEN Ev.cache ELSE Result(cache, Ev.req).cache
   /\ (l = Len(Traces[t]) => PrintT(<<"END", t, l>>))
   /\ l' = l + 1 /\ t' = t
   /\ UNCHANGED shape
